@@ -86,7 +86,9 @@ where
                     Point::new(q.x.clamp(-2000, 2000) - d.i(0, 3), q.y.clamp(-2000, 2000) - d.i(0, 3))
                 }
             };
-            Rectangle::new(tl, embedded_graphics::geometry::Size::new(d.u(0, 5), d.u(0, 5)))
+            // one area in eight is large (up to 100x100: more than 4096 pixels in one call)
+            let m = if d.ratio(1, 8) { 100 } else { 5 };
+            Rectangle::new(tl, embedded_graphics::geometry::Size::new(d.u(0, m), d.u(0, m)))
         };
         let op = match d.u(0, 12) {
             10 => {
@@ -126,6 +128,20 @@ where
                     let p = gen_point(d, &used);
                     used.push(p);
                     v.push((p, d.pick(palette)));
+                }
+                // auxiliary word 5: one iterator in 32 continues with 256..=320 (or 4097..=4297) further pixels, a run of
+                // consecutive cells in row-major order from a random start (more than 255 items per call)
+                let long = d.aux_u(5, 0, 63);
+                if long >= 62 {
+                    // 63: more pixels than the display has cells (the run wraps around, so cells repeat)
+                    let start = d.u(0, 4095 - 330);
+                    let n = if long == 63 { 4097 + d.u(0, 200) } else { 256 + d.u(0, 64) };
+                    for k in 0..n {
+                        let cell = (start + k) % 4096;
+                        let p = Point::new((cell % 64) as i32, (cell / 64) as i32);
+                        v.push((p, palette[(k as usize) % palette.len()]));
+                    }
+                    used.push(Point::new((start % 64) as i32, (start / 64) as i32));
                 }
                 Op::Iter(v)
             }
